@@ -168,16 +168,16 @@ def items(tier, seed):
     rng = random.Random(seed)
     P = list(EXTRA) + list(progs.CORPUS)
     d1 = [p for p, e in progs.typed(progs.depth1()) if float_args(p)]; rng.shuffle(d1)
-    P += d1[:700 if tier == 'quick' else len(d1)]
+    P += d1[:450 if tier == 'quick' else len(d1)]
     d2 = [p for p in progs.depth2(d1[:300] if tier == 'quick' else d1[:4000])]; rng.shuffle(d2)
-    P += d2[:450 if tier == 'quick' else 30000]
+    P += d2[:300 if tier == 'quick' else 30000]
     for _ in range(60 if tier == 'quick' else 2000):
         P.append(progs.random_program(rng, rng.choice([3, 4]), leaves=progs.FLEAVES + progs.XLEAVES + [('arg', 'k'), ('arg', 'n')]))
     # targeted structural family: structural constructors over equal-length operands, multi-factor products (quick: seeded sample of levels 1 and 2; thorough: all)
     S1 = [p for p, e in progs.typed(progs.structured(1)) if float_args(p)]
     S2 = [p for p, e in progs.typed(progs.structured(2)) if float_args(p) and p not in set(S1)]; rng.shuffle(S2)
     rng.shuffle(S1)
-    P += (S1[:1400] + S2[:300]) if tier == 'quick' else (S1 + S2)
+    P += (S1[:800] + S2[:200]) if tier == 'quick' else (S1 + S2)
     out = [(i, p, 1) for i, p in enumerate(P)]
     n2 = len(EXTRA) + (120 if tier == 'quick' else 5000)
     out += [(i, p, 2) for i, p in enumerate(P[:n2])]
